@@ -3,8 +3,34 @@
 use crate::*;
 use proc_macro2::{TokenStream, TokenTree};
 
+fn lit_value(l: &proc_macro2::Literal) -> Option<String> {
+    let repr = l.to_string();
+    if repr.starts_with('"') || repr.starts_with("r\"") || repr.starts_with("r#") {
+        return syn::parse_str::<syn::LitStr>(&repr).ok().map(|s| s.value());
+    }
+    None
+}
+
 fn walk(ts: TokenStream, out: &mut Set<String>) {
-    for tt in ts {
+    let v: Vec<TokenTree> = ts.into_iter().collect();
+    // `concat!("a", "b", …)` and `format!`-free multi-line statements: join the pieces
+    for i in 0..v.len() {
+        if let (TokenTree::Ident(id), Some(TokenTree::Punct(p)), Some(TokenTree::Group(g))) = (&v[i], v.get(i + 1), v.get(i + 2)) {
+            if id == "concat" && p.as_char() == '!' {
+                let mut joined = String::new();
+                let mut all = true;
+                for t in g.stream() {
+                    match t {
+                        TokenTree::Literal(l) => match lit_value(&l) { Some(s) => joined.push_str(&s), None => all = false },
+                        TokenTree::Punct(_) => {}
+                        _ => all = false,
+                    }
+                }
+                if all && !joined.is_empty() { out.insert(joined); }
+            }
+        }
+    }
+    for tt in v {
         match tt {
             TokenTree::Group(g) => walk(g.stream(), out),
             TokenTree::Literal(l) => {
